@@ -1,11 +1,11 @@
 UNIT = dict(
     name='slab',
-    roots=['rec:pa*', 'rec:pu*', 'rec:pd*'],
+    roots=['rec:pa*', 'rec:pu*', 'rec:pd*', 'rec:pe', 'rec:pe_*'],
     clang_flags=['-fno-access-control'],
     first_includes=['hooks.h'],
     pre_includes=['spec.h'],
     sources=['harness.c'],
-    extern=['pa_tree_insert', 'pa_treeb_remove', 'pa_treeb_first', 'pu_tree_insert', 'pu_treeb_remove', 'pu_treeb_first'],
+    extern=['pa_tree_insert', 'pa_treeb_remove', 'pa_treeb_first', 'pu_tree_insert', 'pu_treeb_remove', 'pu_treeb_first', 'pe_tree_insert', 'pe_treeb_remove', 'pe_treeb_first'],
     lower_opts=dict(access_hooks=['pa_freelist', 'pa_frame', 'pa_slab_frame', 'pa_bucket', 'pu_freelist', 'pu_frame', 'pu_slab_frame', 'pu_bucket']),
     assumptions=['the per-bucket partial tree is replaced by its contract (an address-ordered set of at most two slabs); the rbtree itself is checked in C06',
                  'policy stub: map returns 0 (nondeterministically, at every call) or the address of a fresh object of the requested length; unmap gives it back; poison hooks drive a ghost poison state of one tracked block and one tracked header',
@@ -29,6 +29,9 @@ def obligations(tier):
     for p in ('pa', 'pu'):
         add('%s.construct_large' % p, 'h_%s_construct_large' % p, '%s__construct_large' % p, ['C01', 'C03', 'C04', 'C05'])
         add('%s.free_huge' % p, 'h_%s_free_huge' % p, '%s_free_huge_' % p, ['C03', 'C05'])
+    # frame lookup when the page size equals the superblock size (large user areas are superblock-aligned)
+    add('pe.get_size_large', 'h_pe_get_size_large', 'pe_get_size', ['C01'])
+    add('pe.get_size_slab', 'h_pe_get_size_slab', 'pe_get_size', ['C01'])
     add('pa.reallocate_in_slab', 'h_pa_reallocate_in_slab', 'pa_reallocate_in_slab_', ['C02', 'C03'])
     add('pa.reallocate_huge', 'h_pa_reallocate_huge', 'pa_reallocate_huge_', ['C02', 'C03'])
     for p in ('pa', 'pu'):
